@@ -197,10 +197,14 @@ class CtlPeer(Peer):
             self.authenticated = True
             return ok()
         if line == 'GETINFO signal/names':
+            if getattr(self, 'short', False):
+                return ok('signal/names=RELOAD NEWNYM')
             return ok('signal/names=' + SIGNAL_NAMES)
         if line == 'GETINFO version':
             return ok('version=' + self.version)
         if line == 'GETINFO events/names':
+            if getattr(self, 'short', False):
+                return ok('events/names=CIRC STREAM BW HS_DESC NS GUARD')
             return ok('events/names=' + EVENT_NAMES)
         if line == 'USEFEATURE EXTENDED_EVENTS':
             return ok()
